@@ -112,7 +112,7 @@ JudgeRetrieve(r, DD) ==
 (* by breadth-first search over the connections of r.Lm (Distance!ReachFrom).       *)
 JudgeRetrieveBig(r) ==
   LET n == r.n  Lm == r.Lm  X == 1..Len(r.srcs)
-      Out == OutNb(n, Lm)
+      Out == DOutNb(n, Lm)
       reach == TLCEval([x \in X |-> ReachFrom(Out, r.srcs[x])])
       Q == {q \in X \X (1..n) : q[2] # r.srcs[q[1]]}           \* <<x, t>>, t # source
       Path(q) == r.paths[q[1]][q[2]]
@@ -137,7 +137,7 @@ JudgeRetrieveBig(r) ==
 (* r.rows (drawn by the harness RNG) against Distance!MinHopsRow.                   *)
 JudgeDistBig(r) ==
   LET n == r.n  D == r.D  Lm == r.Lm
-      Out == OutNb(n, Lm)  In == InNb(n, Lm)
+      Out == DOutNb(n, Lm)  In == DInNb(n, Lm)
       Row(s) == [D[s] EXCEPT ![s] = 0] IN
   Skip("zero_length_connection", ~PosLen(n, Lm),
   Chk("Returns",            r.raised = "",
